@@ -721,12 +721,14 @@ def residual_blocks(body):
     return out
 
 
-def loop_region(body, head):
+def loop_region(body, head, A=None):
     """natural loop of `head` plus the blocks of its early-exit paths up to the continuation block
     (the first block common to all regular ways out of the loop; `?`/panic exits do not count).
     Returns (region, continuation)."""
     loop = body.natural_loop(head)
     errs = residual_blocks(body)
+    if A is not None:
+        errs = errs | error_exit_blocks(A, body)
     rets = set(returns_of(body))
     exits = []
     for b in loop:
@@ -756,7 +758,7 @@ def loop_region(body, head):
 def monotone_flags(A, body, head):
     """structural half of the ∀-loop decomposition: inside the loop of `head` (including its break
     paths), every bool local that is also assigned outside the loop is only ever assigned one constant"""
-    loop, cont = loop_region(body, head)
+    loop, cont = loop_region(body, head, A)
     inside, outside = {}, {}
     for blk in body.blocks:
         if blk["cleanup"]:
@@ -830,7 +832,7 @@ def loop_conjunction(A, fn_name, is_target_write):
         loop = body.natural_loop(h)
         sw = body.term(h)["t"]
         somes = [s_ for s_ in body.succs(sw) if s_ in loop]
-        region, cont = loop_region(body, h)
+        region, cont = loop_region(body, h, A)
         exits = {cont} if cont is not None else set(s_ for b in loop for s_ in body.succs(b) if s_ not in loop)
         sym = ("b", fr.fid, h, "nbr")
         passing_h = set()
@@ -1069,17 +1071,24 @@ def check_C10(A, R, tier):
         run = A.runs[(ab.name, "AB|%s" % A.sname(d))]
         fid0 = [v["fid"] for v in run.by_kind("call") if v["fn"] == ab.name]
         fid0 = fid0[0] if fid0 else None
-        pl = [v for v in run.by_kind("push_local") if v["fn"] == ab.name and v["key"][0] is not None and is_role(v["key"], "alljobs")]
+        pl = [v for v in run.by_kind("push_local") if v["key"][0] is not None and is_role(v["key"], "alljobs")]
         ok1, why1 = False, "the index of an unfinished job is not collected"
         for v in pl:
             ok1, why1 = forall_loop_taken(A, run, v)
             if ok1:
                 break
-        ps = [v for v in run.by_kind("push_signal") if v["fn"] == ab.name and set(v["kinds"]) == {K["abort"]}]
+        if not ok1:
+            # iterator form: jobs.iter()...filter(p)...collect(): p must hold for a job in this state
+            for cv in run.by_kind("collect"):
+                frs = [f for f in run.by_kind("filter_result") if f["fid"] == cv["fid"] and f["bb"] == cv["bb"]]
+                if frs and all(f["may_true"] and not f["may_false"] for f in frs):
+                    ok1, why1 = True, ""
+                elif frs:
+                    why1 = "the filter that selects the jobs to abort can drop a job in this state"
+        ps = [v for v in run.by_kind("push_signal") if set(v["kinds"]) == {K["abort"]}]
         ok2, why2 = False, "no abort signal is built from the collected indices"
         for v in ps:
-            src_ok = any(isinstance(r, tuple) and r[0] == "was" and any(p["key"][0] == r[1] for p in pl) for r in v["key"][1])
-            if not src_ok and v["container"] != "queue":
+            if not is_role(v["key"], "alljobs"):
                 why2 = "the abort signals are not built from the collected indices"
                 continue
             ok2, why2 = forall_loop_taken(A, run, v)
@@ -1242,35 +1251,47 @@ def check_C05(A, R, tier):
     # R5.4 signals emitted while handling are not lost: the local signal list is moved into the queue
     sp = A.signal_processor()
     run = H[(K["done"], sorted(C["Finished"])[0])]
-    tr = [v for v in run.by_kind("push_signal") if v["container"] == "queue" and v["fn"] == sp.name]
-    ext = [v for v in run.by_kind("extend") if v["target"] == ("self", A.L.signals_field) and v["fn"] == sp.name]
-    R.ob("R5.4", "%s | signals emitted by the handlers are moved into the queue" % short(sp.name), bool(tr or ext),
+    idx = run._index()
+    fid0 = idx.get((sp.name, ()))
+    transfers = []
+    for v in run.by_kind("push_signal"):
+        if v["container"] == "queue":
+            p_ = run.pos_in(v, fid0)
+            if p_ is not None:
+                transfers.append(p_[1])
+    for v in run.by_kind("extend"):
+        if v["target"] == ("self", A.L.signals_field):
+            p_ = run.pos_in(v, fid0)
+            if p_ is not None:
+                transfers.append(p_[1])
+    R.ob("R5.4", "%s | signals emitted by the handlers are moved into the queue" % short(sp.name), bool(transfers),
          detail="the local list of new signals is never transferred")
-    if tr:
-        v = tr[0]
-        body = A.facts.body(sp.name)
-        # the transfer loop is passed on every non-error path from the end of the drain loop to the return
-        drain_heads = [blk["i"] for blk in body.blocks if not blk["cleanup"] and blk["term"]["t"]["k"] == "call"
-                       and (M.callee_name(blk["term"]["t"]) or "").endswith("Drain<'_, T, A> as std::iter::Iterator>::next")]
-        okp = False
-        if drain_heads:
-            h = drain_heads[0]
-            sw = body.term(h)["t"]
+    if transfers:
+        body = sp
+        # the loop that hands out the signals: binding block of a (non-transfer) signal-target key in the processor's activation
+        heads = set()
+        for k_, v in run.facts.items():
+            ki = v.get("key") if isinstance(v, dict) else None
+            if isinstance(ki, tuple) and len(ki) == 2 and isinstance(ki[0], tuple) and ki[0][:2] == ("b", fid0) and is_role(ki, "sigtarget"):
+                if not (k_[0] == "push_signal" and v.get("container") == "queue"):
+                    heads.add(ki[0][2])
+        heads -= set(transfers)
+        okp = bool(heads)
+        errs = error_exit_blocks(A, body) | residual_blocks(body)
+        for h in heads:
             loop = body.natural_loop(h)
-            outs = [s_ for s_ in body.succs(sw) if s_ not in loop and body.term(s_)["k"] != "unreachable"]
-            sym = v["key"][0]
-            errs = error_exit_blocks(A, body)
-            okp = True
-            for o in outs:
-                r = body.reachable(o, {v["bb"]} | errs)
-                # allowed: returning without transfer only if the list is empty (a branch on is_empty) - accept a guarded skip
-                if set(returns_of(body)) & r:
-                    # is every such path guarded by an emptiness test of the list?
-                    guarded = any((M.callee_name(body.term(b)) or "").endswith("::is_empty") for b in r
-                                  if body.term(b)["k"] == "call")
-                    okp = okp and guarded
+            if set(transfers) & loop:
+                continue       # this loop is the transfer itself
+            region, cont = loop_region(body, h, A)
+            if cont is None:
+                okp = False
+                continue
+            r = body.reachable(cont, set(transfers) | errs)
+            if set(returns_of(body)) & r:
+                guarded = any((M.callee_name(body.term(b_)) or "").endswith("::is_empty") for b_ in r if body.term(b_)["k"] == "call")
+                okp = okp and guarded
         R.ob("R5.4", "%s | the transfer is on every regular path from the end of the batch to the return" % short(sp.name), okp,
-             detail="a path returns without moving the new signals into the queue (and without an emptiness test)", site=A.site(v))
+             detail="a path returns without moving the new signals into the queue (and without an emptiness test)")
     R.explanation = ("Decided: each job is started at most once (phase typestate over the complete transition relation), and a finished "
                      "evaluation has nothing ready or running (ready-set pairing, disjoint classes, running report is a scan).  "
                      "Necessary conditions for progress: every finishing write announces the job, the announcement reconsiders every "
@@ -1279,8 +1300,12 @@ def check_C05(A, R, tier):
 
 
 def is_direct_nbr_of_sig(v):
+    from rules_protocol import run_roles
     par, d = nbr_parent(v["key"])
-    return isinstance(par, tuple) and len(par) > 3 and par[3] == "sig"
+    run = v.get("_run")
+    if par is None or run is None:
+        return False
+    return is_role((par, run_roles(run, par)), "sigtarget") or (isinstance(par, tuple) and len(par) > 3 and par[3] == "sig")
 
 
 # =============================================================================================
@@ -1315,6 +1340,20 @@ def loop_gate_summary(A, body):
         return None
     heads = [h for (_, h) in body.back_edges()]
     heads = [h for h in set(heads) if body.term(h)["k"] == "call" and (M.callee_name(body.term(h)) or "").endswith("::next")]
+    if not heads:
+        # quantifier form: neighbours(..).all(|n| pred(n)) -- evaluate the predicate once per neighbour state
+        qs = [v for k, v in I.rec.facts.items() if k[0] == "quantifier" and v["all"] and v["iter"] is not None
+              and v["iter"][1][0] == "nbr" and v["iter"][1][3] == "Incoming"]
+        if len(qs) != 1:
+            return None
+        passing = set()
+        for d in A.JS:
+            I2 = Interp(A.facts, A.uni, A.layout, Config(label="GATEQ", cell_init={"nbr:Incoming:param": fin(A.L.jobstate, [d])}))
+            fr2, out2, col2 = I2.analyze(body)
+            q2 = [v for k, v in I2.rec.facts.items() if k[0] == "quantifier" and v["all"]]
+            if any(v["may_true"] for v in q2) or not q2:
+                passing.add(d)
+        return dict(passing=frozenset(passing), dir="Incoming")
     if len(heads) != 1:
         return None
     h = heads[0]
